@@ -39,6 +39,9 @@ def main():
                 return
             prop = n.split("-")[0]
             checks = ALL if use_all else RELATED.get(prop, ALL)
+            override = os.path.join(staging, n, "checks.txt")
+            if os.path.exists(override) and not use_all:
+                checks = open(override).read().strip()
             p = subprocess.run([sys.executable, os.path.join(os.path.dirname(__file__), "seed_eval.py"), os.path.join(staging, n), "--repo", wt, "--checks", checks],
                                capture_output=True, text=True)
             with lock:
